@@ -10,7 +10,6 @@ package main
 
 import (
 	"fmt"
-	"os"
 	"io"
 	"strconv"
 	"strings"
@@ -57,24 +56,16 @@ func coqLabel(l labJ, msg bool) string {
 	return "LClose"
 }
 
-var schedDur [2]time.Duration
-var schedSlow int
-var syncDur time.Duration
-var syncN int
+var schedDur [2]time.Duration // time spent in forced schedules per carrier (C15_TIMING)
 
 func (x *runner) runSched(c schedCase, origin string) bool {
 	t0 := time.Now()
 	defer func() {
-		d := time.Since(t0)
 		i := 0
 		if c.Msg {
 			i = 1
 		}
-		schedDur[i] += d
-		if d > 300*time.Millisecond && schedSlow < 5 && os.Getenv("C15_TIMING") != "" {
-			schedSlow++
-			fmt.Fprintf(os.Stderr, "slow sched %v msg=%v %s\n", d, c.Msg, labelsText(c.Labels))
-		}
+		schedDur[i] += time.Since(t0)
 	}()
 	r := x.getRig()
 	if r == nil {
@@ -286,10 +277,7 @@ func (x *runner) runSched(c schedCase, origin string) bool {
 				// no acknowledgement on this carrier: the packet has been handled
 				// once a later request has been answered; a refusal is a message
 				// of type error with the packet's id
-				ts := time.Now()
 				ok = r.sync()
-				syncDur += time.Since(ts)
-				syncN++
 				w = wstanza{Type: "result"}
 				for _, l := range r.peer.snapshotFrom(from) {
 					if l.Name == "message" && l.ID == id && l.Type == "error" {
